@@ -2,6 +2,7 @@ package sm2
 
 import (
 	"bytes"
+	"encoding/asn1"
 	"errors"
 	"math/big"
 )
@@ -72,5 +73,46 @@ func zzH_c14_cipher_asn1_roundtrip() {
 	vAssert("cipher-unmarshal-ok", err == nil)
 	vAssert("cipher-asn1-roundtrip", bytes.Equal(back, orig))
 	vAssert("cipher-marshal-input-untouched", bytes.Equal(ct, orig))
+	vReach("end")
+}
+
+// H18-sm2-cipherunmarshal: CipherUnmarshal on a DER ciphertext whose fields have unexpected
+// sizes - coordinates of more than 32 bytes (or zero), a hash that is not 32 bytes - returns a
+// value or an error, never panics. (What DER decodes to is arbitrary: any two non-negative
+// integers and any two octet strings.)
+//
+//verif:property C18
+//verif:expect-reach end
+//verif:bound decoded x and y each with 0, 1, 31, 32, 33 or 40 significant bytes (content symbolic), hash of 0, 31, 32 or 33 bytes, ciphertext of 0..2 bytes; decoding itself replaced by a value store (the real DER decoder runs natively)
+//verif:outside DER decoding itself (encoding/asn1)
+//verif:stub-symbolic encoding/asn1.Unmarshal zzStubAsn1Unmarshal14
+//verif:native-smoke
+//verif:unwind 140
+func zzH_c18_sm2_cipherunmarshal() {
+	ks := []int{0, 1, 31, 32, 33, 40}
+	kx, ky := ks[vChoice("kx", len(ks))], ks[vChoice("ky", len(ks))]
+	hl := []int{0, 31, 32, 33}[vChoice("hashLen", 4)]
+	L := vChoice("L", 3)
+	mk := func(name string, k int) *big.Int {
+		if k == 0 {
+			return new(big.Int)
+		}
+		b := vBytes(name, k, k)
+		b[0] = byte(1 + vU64(name+".top")%255)
+		return new(big.Int).SetBytes(b)
+	}
+	x, y := mk("x", kx), mk("y", ky)
+	hash, c2 := vBytes("hash", hl, hl), vBytes("c2", L, L)
+	var der []byte
+	if vNative() {
+		der, _ = asn1.Marshal(sm2Cipher{x, y, hash, c2})
+	} else {
+		zzC14.c, zzC14.has = sm2Cipher{x, y, hash, c2}, true
+		der = []byte{0x30, 0x01, 0x01}
+	}
+	out, err := CipherUnmarshal(der)
+	if err == nil && kx <= 32 && ky <= 32 && kx > 0 && ky > 0 && hl == 32 {
+		vAssert("well-formed-ciphertext-decodes", len(out) == 97+L && out[0] == 4)
+	}
 	vReach("end")
 }
